@@ -6,9 +6,10 @@ CONSTANTS
   Types = {"result", "error", "errorBare", "set", "get"}
   OpenKinds = {"plain", "sm", "smr", "resumed"}
   Cids = {"fresh", "empty", "dup"}
+  Attempts = {"authfail", "bindfail", "userabort", "precut", "abandon"}
   IdRule = "replace"
   MaxHist = 99
 INVARIANTS TypeOK AtMostOnce DoneOnce NonePending
-PROPERTIES WrongSender RightSender FreshOpen
+PROPERTIES GivenUp WrongSender RightSender FreshOpen
 VIEW View
 CHECK_DEADLOCK FALSE
